@@ -441,12 +441,13 @@ def run_impl(case):
         gate[0] = None
     trace = [x for ev in log for x in ev]
     # the dependencies of each task as the real Task objects hold them after the run (dynamic ones included)
-    real_deps = {}
+    real_deps, real_nonsetup = {}, {}
     for nm, t in tc.tasks.items():
         if nm in ids:
             real_deps[ids[nm]] = sorted(set(ids[x] for x in list(t.task_dep) + list(t.setup_tasks) + list(t.calc_dep) if x in ids))
+            real_nonsetup[ids[nm]] = sorted(set(ids[x] for x in list(t.task_dep) + list(t.calc_dep) if x in ids))
     return dict(trace=trace, events=[list(e) for e in log], rc=rc, wake=wake, rows=rows, names=names,
-                real_deps=real_deps, arity=(S.arity if flavour != 'serial' else []))
+                real_deps=real_deps, real_nonsetup=real_nonsetup, arity=(S.arity if flavour != 'serial' else []))
 
 
 def coq_case(case, res, idx):
